@@ -50,6 +50,9 @@ CONFIGS = {
         dict(binning="B2r", scales="ang2", unit="deg", rweight=-1.0, res=3, weighted=True),
         dict(binning="B2r", scales="ang3rev", unit="deg", rweight=-1.0, res=5, weighted=False),
         dict(binning="highz", scales="ang3", unit="Mpc", rweight=None, res=None, weighted=False, cosmo="curved"),
+        # only the reference sample and the unknown randoms carry weights: every kind of pair (w x none, w x w,
+        # none x none, none x w) occurs in one measurement
+        dict(binning="B2r", scales="ang3", unit="deg", rweight=None, res=None, weighted="mixed"),
     ],
 }
 CONFIGS["thorough"] = CONFIGS["quick"] + [
@@ -91,6 +94,11 @@ def cases(tier, seed):
         for (world, _), pa, za, pb in itertools.product(world_np, (-129.0, -129.6), zslots[:2], (-131.5, -130.4)):
             out.append(dict(conf, world=world, npatch=2, filler="F0", pa=pa, za=za, pb=pb, row=0, seed=seed,
                             conf_id=ci, wide=True))
+        # two antipodal centres (exactly antipodal in floating point in the equator world): each patch is a
+        # hemisphere, the probes sit next to the border 90 deg from both centres
+        for (world, _), pa, za, pb in itertools.product(world_np, (89.0, 89.6), zslots[:2], (91.5, 90.4)):
+            out.append(dict(conf, world=world, npatch=2, filler="F0", pa=pa, za=za, pb=pb, row=0, seed=seed,
+                            conf_id=ci, wide=180.0))
     return out
 
 
@@ -109,19 +117,29 @@ def zvals(binning):
     return mids, edges[0] * 0.5
 
 
+def wide_spacing(case):
+    return WIDE if case["wide"] is True else float(case["wide"])
+
+
 def build_catalogs(case):
     """Object lists for R (reference), U (unknown), RR (reference randoms), UR (unknown randoms)."""
     seed, npatch = case["seed"], case["npatch"]
     mids, zout = zvals(case["binning"])
     cen_names = ["c0", "c1", "c2"][:npatch]
     if case.get("wide"):
-        cen_names = [0.0, WIDE]
+        cen_names = [0.0, wide_spacing(case)]
     prime = iter([2, 3, 5, 7, 11, 13, 17, 19, 23, 29, 31, 37, 41, 43, 47, 53, 59, 61, 67, 71, 73, 79, 83,
                   89, 97, 101, 103, 107, 109, 113, 127, 131, 137, 139, 149, 151, 157, 163, 167, 173])
     W = case["weighted"]
 
+    def has_w(tag):
+        if W == "mixed":  # reference (tags R*, a) and unknown randoms (UR*) weighted, the others not
+            return tag.startswith("UR") or tag == "a" or (tag.startswith("R") and not tag.startswith("RR"))
+        return bool(W)
+
     def o(pos, z=None, tag="", row=0, dra=0.0):
-        ob = worlds.obj(pos, row=row, z=z, w=float(next(prime)) if W else None, seed=seed, tag=tag)
+        w = float(next(prime))
+        ob = worlds.obj(pos, row=row, z=z, w=w if has_w(tag) else None, seed=seed, tag=tag)
         ob["ra"] += dra
         return ob
 
@@ -156,8 +174,9 @@ def build_catalogs(case):
     R.append(o(case["pa"], za, "a", row=case["row"]))
     U.append(o(case["pb"], None, "b"))
     if case.get("wide"):
-        RR.append(o(-128.7, mids[0], "RRx"))
-        UR.append(o(-131.0, None, "URx", row=1))
+        border = wide_spacing(case) / 2.0 + (-180.0 if wide_spacing(case) == WIDE else 0.0)
+        RR.append(o(border + 1.3, mids[0], "RRx"))
+        UR.append(o(border - 1.0, None, "URx", row=1))
     else:
         RR.append(o("n0", mids[0], "RRx"))
         UR.append(o("b1", None, "URx", row=1))
@@ -244,7 +263,7 @@ def run_case(case):
     cosmo = case.get("cosmo", "Planck15")
     rmin, rmax = worlds.scale_config(case["scales"], case["unit"], case["binning"], cosmo)
     objs = build_catalogs(case)
-    spacing = WIDE if case.get("wide") else worlds.D
+    spacing = wide_spacing(case) if case.get("wide") else worlds.D
     cats = [worlds.realise(world, o, npatch, spacing) for o in objs]
     if min(float(c["margin"].min()) for c in cats) < 1e-9:
         return dict(status="skip", skip_rule="object within 1e-9 rad of a Voronoi border")
@@ -278,6 +297,16 @@ def run_case(case):
     cfacts = f"{case['binning']}/{unitkind}/{case['filler']}" + ("/wide-patches" if case.get("wide") else "")
     viols = []
     wsep = case["rweight"] is not None
+    if "cosmo" in case:
+        # an earlier measurement in the same process with the same scales and binning but another unnamed cosmology of
+        # the same class: nothing of it may leak into the measurement that is checked
+        import astropy.cosmology as ac
+
+        decoy = config.modify(cosmology=ac.LambdaCDM(H0=70.0, Om0=0.3, Ode0=0.5))
+        try:
+            yaw.crosscorrelate(decoy, cR, cU, ref_rand=cRR, unk_rand=cUR)
+        except Exception:
+            pass
     try:
         cfs = yaw.crosscorrelate(config, cR, cU, ref_rand=cRR, unk_rand=cUR)
         for kind in ("dd", "dr", "rd", "rr"):
